@@ -797,6 +797,8 @@ def stepCore (e : Env) (line : String) : Env × String :=
 /-- run the op on the world, then mirror it on the value-level machine (with the *pre-state*
 dictionaries of the argument objects, as a caller would pass them) -/
 def step (e : Env) (line : String) : Env × String :=
+  -- `fn.new`: the class constructor called directly (documented alternative to `PEP.declare_function`): same object
+  let line := if line.startsWith "fn.new " then "fn.decl " ++ (line.drop 7).toString else line
   let toks := (line.trimAscii.toString.splitOn " ").filter (· ≠ "")
   let pre := e.w
   let (e', out) := stepCore e line
